@@ -252,6 +252,7 @@ SolReadResult read_sol(const std::string& path, const SolReadConfig& cfg) {
       std::vector<double> lb((size_t)n, 0.0), ub((size_t)n, 10.0), c((size_t)n, 1.0), rlb((size_t)m, -5.0), rub((size_t)m, 50.0), aval;
       std::vector<int> ty((size_t)n), aidx; std::vector<size_t> astart;
       for (int j = 0; j < n; ++j) ty[(size_t)j] = (j % 2 == 0);
+      if ((int)cfg.easy_types.size() == n) for (int j = 0; j < n; ++j) { int t = cfg.easy_types[(size_t)j]; ty[(size_t)j] = t != 0; if (t == 1) ub[(size_t)j] = 1.0; }
       for (int i = 0; i < m; ++i) { astart.push_back(aidx.size()); aidx.push_back(i % n); aval.push_back(2.0 + i); }
       std::string sol_bytes; sim::read_file(path, sol_bytes);
       std::string out_cap, err_cap;
@@ -286,6 +287,9 @@ SolReadResult read_sol(const std::string& path, const SolReadConfig& cfg) {
             es.values.assign(sf.values_, sf.values_ + sf.numval_);
             r.easy_sufs.push_back(es);
           }
+          mp::NLModel::PreprocessData pd;
+          std::string werr = static_cast<mp::NLModel*>(cm.p_data_)->WriteNL(stub + "_perm", NLW2_MakeNLOptionsBasic_C_Default(), utils, pd);
+          if (werr.empty()) r.easy_vperm = pd.vperm_;
         }
       }
       NLW2_DestroyNLSolver_C(&cs);
